@@ -219,7 +219,11 @@ func Select(site int, hasDefault bool, chans ...interface{}) int {
 	if t == nil {
 		return ptSelect(hasDefault, chans)
 	}
-	t.req = request{kind: opSelect, site: site, hasDefault: hasDefault, chans: chans}
+	cp := make([]interface{}, len(chans))
+	for i := 0; i < len(chans); i++ {
+		cp[i] = chans[i]
+	}
+	t.req = request{kind: opSelect, site: site, hasDefault: hasDefault, chans: cp}
 	t.call()
 	return t.resp.idx
 }
